@@ -64,3 +64,88 @@ PLANS["C16"] = {
 }
 
 NOT_APPLICABLE = {}
+
+CODEC_RULE = (
+    "cases = (a) exhaustive tiny-limit sweep through hook H2 (limits (1,1) (1,2) (2,3) (3,5) (4,7) (3,300)): every string over {FE,FD,00} up to "
+    "length L x every 2-way split x 3x3 input methods (borrow/copy/anchored) x 3 drain actions on the encode side, every 2-way split x 3x3 methods "
+    "of each encoding on the decode side, and every string over {00,01,02,FC,FD,FE} up to length L' as decoder input; (b) seeded random round trips "
+    "with H2 limits (FE/FD-dense strings up to 40 bytes) and with the production limits (lengths around 252 / 64008 / 252+k*64008, six payload "
+    "styles, FE/FD planted within +-2 bytes of the limits), each with a random segmentation, input method per piece (borrow, copy, anchored read, "
+    "trimmed / split AnchoredSlice, encode_read/decode_read behind a short-read+EINTR reader), drain schedule (consume, advance_slices, Read, peek) "
+    "and arena pokes (flush, ensure_capacity, take/swap) on both sides; (c) decoder inputs: valid encodings, truncations (all positions for a set "
+    "of messages), header corruptions, substitutions, insertions, deletions. Oracles per case: decode(encode(B)) == B (C01); no FE FD in output, "
+    "output == real one-shot undrained output, length bound (C02); output == independent reference encoder, decoder verdict/bytes == independent "
+    "reference decoder (C07); every drained+peeked byte string is a prefix of the final output, lag bounds (C09); exposed slices live (C05); arena "
+    "counters back to baseline (C10). non-trivial = the case passed every oracle and exercised the codec; distinct = distinct hash of (limits, "
+    "chunk-end kinds incl. hold-back situations at call boundaries, input-method transitions, drain kinds) for random cases, distinct input string "
+    "for sweep cases.")
+
+CODEC_ASSUME = [
+    "hook H2 drives the same EncoderState/DecoderState code as the production entry points (thin wrappers, like the crate's own test helpers)",
+    "the reference codec (harness/src/hcobs_ref.rs) is validated at start-up against the literal vectors of the crate's unit tests",
+    "exhaustive only for the stated small bounds; random beyond",
+]
+
+CODEC_REQ = [
+    "codec.reference_self_test_passed",
+    "codec.prod.chunk_end.limit.first", "codec.prod.chunk_end.limit.later", "codec.prod.chunk_end.stuff.first",
+    "codec.prod.chunk_end.stuff.later", "codec.prod.chunk_end.input.later", "codec.prod.call_boundary_inside_FE|FD",
+    "codec.prod.call_boundary_after_FE_released_as_data", "codec.prod.fe_last_of_full_chunk_fd_first_of_next",
+    "codec.prod.terminator_after_full_chunk", "codec.prod.zero_length_chunk", "codec.prod.call_boundary_at_chunk_limit",
+    "codec.enc.method.Borrow", "codec.enc.method.Copy", "codec.enc.method.Anchored", "codec.enc.method.Read",
+    "codec.dec.method.Borrow", "codec.dec.method.Copy", "codec.dec.method.Anchored", "codec.dec.method.Read",
+    "codec.enc.drain.consume", "codec.enc.drain.advance_slices", "codec.enc.drain.read",
+]
+
+PLANS["C01"] = {
+    "level": "exploration",
+    "technique": "identity round-trip oracle over real Encoder->Decoder executions (exhaustive tiny-limit sweep via H2 + random production-limit cases, all input methods, drains); ASan and Miri watch the same executions in the thorough tier",
+    "rule": CODEC_RULE,
+    "assumptions": CODEC_ASSUME,
+    "required_features": CODEC_REQ,
+    "quick": [R("codec", "dbg", mode="sweep,random", sweep_len=7, dec_sweep_len=3, prod_cases=80000, tiny_cases=1500000)],
+    "thorough": [R("codec", "dbg", mode="sweep,random", sweep_len=9, dec_sweep_len=3, prod_cases=150000, tiny_cases=4000000),
+                 R("codec", "rel", mode="random", prod_cases=600000, tiny_cases=8000000, max_len=1000000),
+                 R("codec", "asan", mode="random", prod_cases=30000, tiny_cases=300000),
+                 R("codec", "miri", mode="random", prod_cases=48, tiny_cases=400, timeout=3000)],
+}
+
+PLANS["C02"] = {
+    "level": "exploration",
+    "technique": "monitors on every produced byte stream: FE FD scan over drained++finished bytes, comparison with the real encoder's one-shot undrained output (with attribution re-run), length-bound check; tight-length workload",
+    "rule": CODEC_RULE,
+    "assumptions": CODEC_ASSUME,
+    "required_features": CODEC_REQ,
+    "quick": [R("codec", "dbg", mode="sweep,random", sweep_len=7, dec_sweep_len=3, prod_cases=80000, tiny_cases=1500000, drain_weight=50)],
+    "thorough": [R("codec", "dbg", mode="sweep,random", sweep_len=9, dec_sweep_len=3, prod_cases=150000, tiny_cases=4000000, drain_weight=50),
+                 R("codec", "rel", mode="random", prod_cases=600000, tiny_cases=8000000, max_len=1000000, drain_weight=50)],
+}
+
+PLANS["C07"] = {
+    "level": "exploration",
+    "technique": "differential monitor against an independently written reference codec with literal 252/64008/253 (encoder bytes; decoder accept/reject and bytes), exhaustive small decoder inputs via H2, all truncations, header surgery",
+    "rule": CODEC_RULE,
+    "assumptions": CODEC_ASSUME,
+    "required_features": CODEC_REQ + ["codec.dec.accepted_as_expected", "codec.dec.rejected_as_expected", "codec.dec.truncation_positions",
+                                      "codec.dec.input.first-header", "codec.dec.input.later-header"],
+    "quick": [R("codec", "dbg", mode="all", sweep_len=6, dec_sweep_len=7, prod_cases=40000, tiny_cases=600000, dec_cases=1500000)],
+    "thorough": [R("codec", "dbg", mode="all", sweep_len=8, dec_sweep_len=8, prod_cases=100000, tiny_cases=2000000, dec_cases=4000000),
+                 R("codec", "rel", mode="random,decoder", prod_cases=400000, tiny_cases=4000000, dec_cases=10000000, max_len=1000000)],
+}
+
+PLANS["C09"] = {
+    "level": "exploration",
+    "technique": "online prefix/lag monitor after every feed call (hash of drained++peek vs final output; total_size minus stable bytes vs constant bound; decoder lag 0), plus long-stream runs with on-the-fly comparison of drained bytes to the reference stream",
+    "rule": CODEC_RULE + (" Long streams (codec-stream): production encoder (and encoder->decoder pipeline) fed S MiB of no-FE / all-stuff / uniform / dense "
+                          "payload in pieces of 1 B..256 KiB by borrow/copy/encode_read, drained never / everything after every call (random mechanism) / "
+                          "randomly; drained bytes are compared on the fly with the reference encoding; the maximum lag per stream length is recorded."),
+    "assumptions": CODEC_ASSUME + ["lag bound checked: 1 MiB (largest arena chunk; harness keeps single reads <= 1 MiB) + 64008 + 2",
+                                   "unbounded stream length restated as: same bound observed at several stream lengths"],
+    "required_features": CODEC_REQ + ["stream.policy.Never", "stream.policy.AllEveryCall", "stream.pipeline"],
+    "quick": [R("codec", "dbg", mode="sweep,random", sweep_len=6, dec_sweep_len=3, prod_cases=60000, tiny_cases=1000000, drain_weight=70),
+              R("codec-stream", "rel", shards=16, streams=64, mib=16, big_mib=64)],
+    "thorough": [R("codec", "dbg", mode="sweep,random", sweep_len=8, dec_sweep_len=3, prod_cases=150000, tiny_cases=3000000, drain_weight=70),
+                 R("codec", "rel", mode="random", prod_cases=600000, tiny_cases=6000000, drain_weight=70, max_len=1000000),
+                 R("codec-stream", "rel", shards=16, streams=192, mib=64, big_mib=512),
+                 R("codec-stream", "dbg", shards=16, streams=64, mib=16, big_mib=64)],
+}
